@@ -10,12 +10,17 @@ GNext == /\ Next
 GSpec == GInit /\ [][GNext]_<<vars, hist>>
 \* printed once per behaviour: at the end of the report step in which a budget is used up
 Emit == IF last.op = "end" /\ (nops >= MaxOps \/ step >= MaxSteps) THEN PrintT(<<"GEN", ToJson([steps |-> hist])>>) /\ FALSE ELSE TRUE
+GFree == {"W3"}
+GOnlyFree == {"W3"}
+None == {}
+\* cells of the well with laterals: 100 i + 10 j + k around the head (2, 2)
+GFreeCells == {221, 222, 121, 122, 321, 322, 211, 231}
 \* selections worth generating: a cell (with the three ways of giving I, J), or a completion range
-GenSel == {s \in Sel : \/ (s.k # 0 /\ s.c1 = 0 /\ s.c2 = 0)
+GenSel == {s \in Sel : \/ (s.k # 0 /\ s.c1 = 0 /\ s.c2 = 0 /\ (s.k \in GFreeCells => s.ij = "head"))
                        \/ (s.k = 0 /\ s.ij = "default" /\ (s.c1 = 0 \/ s.c2 = 0 \/ s.c1 <= s.c2))
-                       \/ (s.k # 0 /\ s.ij = "default" /\ s.c1 # 0 /\ s.c2 = s.c1)}
+                       \/ (s.k # 0 /\ s.k \notin GFreeCells /\ s.ij = "default" /\ s.c1 # 0 /\ s.c2 = s.c1)}
 \* operations on a well without connections are legal but teach nothing: at most one in a history
 Useful == last.op \in {"WPIMULT", "WELOPEN"} => st.conns[last.well] # <<>>
-GWells == {"W1", "W2"}
+GWells == {"W1", "W2", "W3"}
 GInput == {"W1"}
 =============================================================================
